@@ -875,6 +875,9 @@ def process(case):
             out["impl"].append(("lazy", {"exc": obs["exc"] is not None,
                                          "members": [{k: strip_member(t) for k, t in m.items()} for m in obs["members_after"]]}))
             out["labels"].append("lazy")
+    elif style == "skip":
+        out["fails"] = run_skip_case(case)
+        out["hist"].append("skip_existing")
     elif style == "subseq":
         obs = run_subseq(case)
         out["hist"].append("outcome:" + (obs["phase"] if obs["phase"] == "build" else ("reject" if obs["sub_exc"] else "ok")))
@@ -948,6 +951,63 @@ def compare(kind, impl, model_results):
 N_LINES = {"io-build": 1, "io": 1, "fwd": 1, "identity": 0, "dispatch": 1, "subseq": 1}
 
 
+# ------------------------------------------------------------------ set_skip_existing (context state, nn/utils.py:155-390)
+def spec_run_skip(node, env):
+    """documented contract of set_skip_existing(True): a module (leaf or sequence) all of whose out_keys are already
+    present is not executed, unless one of its in_keys is also an out_key"""
+    outs = [k for k in dict.fromkeys(spec_written(node))]
+    ins = spec_free_reads(node)
+    if all(k in env for k in outs) and not any(k in outs for k in ins):
+        return dict(env)
+    if node["t"] == "mod":
+        return spec_run(node, env)
+    env = dict(env)
+    for ch in node["ms"]:
+        env = spec_run_skip(ch, env)
+    return env
+
+
+def run_skip_case(case):
+    from tensordict.nn import set_skip_existing
+    T = Terms()
+    g, c = case["graph"], case["call"]
+    try:
+        mod = build(g, T)
+    except Exception as e:  # noqa: BLE001
+        return []
+    present = resolve_present(c, klist(mod.in_keys))
+    td = make_td(T, present)
+    env0 = {k: ("in", k, 0) for k in present}
+    try:
+        want = spec_run_skip(g, env0)
+    except Missing:
+        return []
+    try:
+        with set_skip_existing(True):
+            res = mod(td)
+    except Exception as e:  # noqa: BLE001
+        return [("skip_existing:raises", {"exception": type(e).__name__}, {"check": "skip-raises", "pattern": "none"})]
+    have = {k: T.tree(int(v)) for k, v in leaf_items(res).items()}
+    fails = []
+    for k, t in want.items():
+        if have.get(k) != t:
+            fails.append(("skip_existing:values", {"key": k, "have": term_json(have[k]) if k in have else None, "want": term_json(t)},
+                          {"check": "skip-values", "pattern": "none"}))
+    # the context state is restored
+    from tensordict.nn import skip_existing
+    if skip_existing():
+        fails.append(("skip_existing:state-leaked", {}, {"check": "skip-state", "pattern": "none"}))
+    return fails
+
+
+def gen_skip_case(rng):
+    counter = [0]
+    g = gen_seq(rng, counter, 0, 0.0, top=True)
+    outs = [k for k in dict.fromkeys(spec_written(g)) if k != SINK]
+    call = {"style": "skip", "extra": [k for k in outs if rng.random() < 0.6] + [k for k in KEYS if rng.random() < 0.2], "drop": None, "tout": None}
+    return {"graph": g, "call": call}
+
+
 # ------------------------------------------------------------------ known-defect patterns (decidable from the case)
 def all_seqs(node):
     if node["t"] == "mod":
@@ -995,14 +1055,16 @@ def gen_all(R):
     rng = R.rng
     q = R.quick
     cases = []
-    n_flow = 1400 if q else 20000
-    n_sub = 500 if q else 8000
+    n_flow = 3000 if q else 40000
+    n_sub = 1200 if q else 15000
     for _ in range(n_flow):
         cases.append(gen_case(rng))
     for _ in range(n_sub):
         cases.append(gen_subseq_case(rng))
+    for _ in range(250 if q else 4000):
+        cases.append(gen_skip_case(rng))
     # every subset of the out_keys / of the key universe to the selectors, on a few graphs
-    n_graphs = 8 if q else 80
+    n_graphs = 12 if q else 150
     for _ in range(n_graphs):
         counter = [0]
         g = gen_seq(rng, counter, 0, 0.0, top=True)
@@ -1081,6 +1143,11 @@ def main(R):
     ]
     R.trusted = ["harness/c14.py: generators, the 12-line Python fold used as spec oracle, canonicalisation (terms, identity classes)",
                  "torch.nn.Module call/hook machinery, CPython"]
+    R.extra["stated_not_proved"] = [
+        "C14_module_footprint_full_statement (refuted: D9 D141 D142 D143; proved on the complement)",
+        "C14_subsequence_sound_full_statement (refuted: D144; proved without ModuleDict-based sequences and zero-output modules)",
+        "C14_forward_slice_executable_full_statement (proved only for in_keys selections covering the sequence's own in_keys; every subset is checked against the code by the harness)",
+        "C14_interact_table_full_statement (refuted: D146; proved on the complement and for the repaired table)"]
     R.step_prove()
     ok = R.step_driver()
     cases = gen_all(R)
@@ -1104,6 +1171,7 @@ def replay(body):
         print("  FAIL", label, json.dumps(detail), "pattern=" + classify(case, label, detail, dict(sig)))
     if not o["fails"]:
         print("  (no failure)")
+    print("implementation observed:", json.dumps(jsonable([list(x) for x in o["impl"]]), default=str)[:3000])
     from . import core
     okb, _ = core.build_driver("C14")
     if okb and o["lines"]:
